@@ -287,7 +287,8 @@ func init() {
 	// hist <n> <ops>   '/'-separated:
 	//   D<nonces>[@f]  proposalsForExecution          -> s:<nonces> | e
 	//   S<id>[@f] / F<id>[@f]  outcome of the execution started by delivery #id recorded (executed / failed) -> d
-	//   T<id>          that execution is lost (timeout, crash): nothing recorded -> d
+	//   T<id>          that execution never gets its signatures: the real watchExecution runs into its signing
+	//                  time-out (nothing is recorded) -> d
 	//   R<nonces>[@f]  FilterDeposits over deposits with these nonces (all matching the request) -> r:<nonces>
 	//   an operation that would block on propMutex -> hang (not called)
 	//   => per op `<result>~<statuses of nonces 0..n-1>`, '/'-separated, then `#free|held`
@@ -334,7 +335,13 @@ func init() {
 					started[id] = nil
 				}
 			case 'T':
+				// the watcher of that execution never gets its signatures: the REAL signing time-out path runs
 				if id := int(u64(arg)); id < len(started) {
+					if started[id] != nil {
+						if r := c17Timeout(b.exe, started[id]); r != "t" {
+							res = r
+						}
+					}
 					started[id] = nil
 				}
 			case 'R':
